@@ -342,7 +342,12 @@ class Recorder:
         def rec_sock(s):
             r = real_sock(s)
             if r is not None and isinstance(s, str) and s.startswith("unix:"):
-                rec.t_pathstr[s[5:].split("\n", 1)[0]] = str(r)
+                # the oracle is pathlib alone (str(pathlib.Path(rest))), NOT whatever
+                # get_unix_socket_path returns: the function's own logic is in the model
+                import pathlib as _pl
+
+                rest = s[5:].split("\n", 1)[0]
+                rec.t_pathstr[rest] = str(_pl.Path(rest))
             return r
 
         class FakeSocket:
@@ -464,7 +469,7 @@ PATH_POOL = ["/tmp", "/tmp/x/../y", "~", "~/music", "~root/x", "~nosuchuser/x", 
              "@LOOP@", "@LOOP@/x", "@LINK@", "@DIR@/f"]
 HOST_POOL = ["127.0.0.1", "::1", "0.0.0.0", "localhost", "example.com", "nosuch.invalid", "a..b", "x" * 70, "é.com",
              "\udcff", "a\x00b", "", " ", "my-host", "1", "256.1.1.1", "unix:/tmp/s", "unix:", "unix:rel/s",
-             "unix:~nosuchuser/s", "unix:$XDG_DATA_DIR/s", "unix:$HOME", "unix:a\x00b", "unix:/a\nb", "UNIX:/x", "unix:/tmp/a\\\\nb", "unix:/tmp/c\\\\d",
+             "unix:~nosuchuser/s", "unix:$XDG_DATA_DIR/s", "unix:$HOME", "unix:a\x00b", "unix:/a\nb", "UNIX:/x", "unix:/tmp/a\\\\nb", "unix:/tmp/c\\\\d", "unix:/tmp/mopidy%2520http.socket", "unix:/tmp/a%20b", "unix:/tmp/100%", "unix:/tmp/%25", "unix:~/s%2Fx",
              " unix:/x", "unix:@LOOP@", "::", "1.2.3", "host name"]
 LEVEL_POOL = ["critical", "error", "warning", "info", "debug", "trace", "all", "INFO", "Debug", "", "warn", "10",
               " info", "\u212a", "notset"]
